@@ -8,6 +8,8 @@ pub trait Task: Sync + Send {
     fn multithreaded(&self) -> bool {
         self.max_parallelism() > 1
     }
+    /// Called by the worker when `execute` panicked, so the task can report failure to its owner.
+    fn abort(&self, _reason: &str) {}
 }
 
 impl Task for dyn Fn() + Send + Sync + 'static {
